@@ -18,7 +18,9 @@ def run(ctx):
                 "both engines: matching function vs the Lean model (free start/end columns) and vs the minimum over all "
                 "start points of the plain DTW spec on series[b..e]; best match / k-best matches: segment and path "
                 "re-validated, iterator invariants (distinct ends, non-decreasing values, length limits, non-overlap, "
-                "<= k) on repeated and interleaved iteration; non-trivial = len(series) > len(query) > 1")
+                "<= k) on repeated and interleaved iteration; the range-factor and knee entry points of the iterator "
+                "(best_matches, best_matches_knee and their _fast forms) yield a prefix of the unlimited iteration under the "
+                "same limits; non-trivial = len(series) > len(query) > 1")
     rng = ctx.rng
     n = 700 if ctx.thorough else 120
     for k in range(n):
@@ -203,6 +205,44 @@ def iter_check(ctx, res, sa, use_c, eng, q, s, nd, pen, lq, big, best_over_b, kk
                 if shared > 1:
                     res.violations.append(dict(info, clause="without overlap two matches share at most a single "
                                                             "boundary sample", pair=[d1[i], d1[j]]))
+    # the other entry points of the same iterator (stop on a range factor / on a knee in the values): they run the
+    # same loop with an extra stopping rule, so they yield a prefix of the k=None sequence with the same limits
+    try:
+        full = [(m.idx, tuple(m.segment), float(m.value)) for m in
+                sa.kbest_matches(k=None, overlap=overlap, minlength=minlength, maxlength=maxlength)]
+        factor = 1.0 + (kk or 2) / 4.0
+        alpha = 0.1 * ((kk or 3) % 7 + 1)
+        variants = [("best_matches(max_rangefactor=%s)" % factor,
+                     (sa.best_matches_fast if use_c else sa.best_matches)(max_rangefactor=factor, overlap=overlap,
+                                                                          minlength=minlength, maxlength=maxlength)),
+                    ("best_matches_knee(alpha=%s)" % alpha,
+                     (sa.best_matches_knee_fast if use_c else sa.best_matches_knee)(alpha=alpha, overlap=overlap,
+                                                                                    minlength=minlength,
+                                                                                    maxlength=maxlength))]
+        for name, gen in variants:
+            got = [(m.idx, tuple(m.segment), float(m.value)) for m in gen]
+            res.hit("variant_" + name.split("(")[0])
+            if len(got) < len(full):
+                res.hit("variant_stopped_early")
+            for (idx, (b, e), v) in got:
+                ln = e - b + 1
+                if (minlength is not None and ln < minlength) or (maxlength is not None and ln > maxlength):
+                    res.violations.append(dict(info, clause="segment respects the length limits (%s)" % name,
+                                               variant=got))
+                    break
+            else:
+                if got != full[:len(got)]:
+                    res.violations.append(dict(info, clause="%s yields a prefix of the matches of the unlimited k-best "
+                                                            "iterator with the same overlap and length limits" % name,
+                                               variant=got, unlimited=full))
+            if name.startswith("best_matches(") and got and any(v > got[0][2] * factor for _, _, v in got):
+                res.violations.append(dict(info, clause="best_matches: every value within max_rangefactor times the "
+                                                        "first", variant=got))
+    except BaseException as ex:
+        if isinstance(ex, (KeyboardInterrupt, SystemExit)):
+            raise
+        res.violations.append(dict(info, clause="best_matches / best_matches_knee raised",
+                                   got=impl.exc_name(ex) + ":" + str(ex)[:80]))
     for m in l1[:2]:
         check_match(res, eng, q, s, nd, pen, lq, m.idx, m.segment, [(int(a), int(b)) for a, b in m.path],
                     float(m.value), float(m.distance), best_over_b)
